@@ -15,6 +15,7 @@ import (
 //   - a given client appears as New exactly once (its Add) and as Old at most once (it can be replaced or removed once),
 //   - Remove returns each client at most once in total, and only clients that were added,
 //   - when everything has returned, for each name: clients added - clients reported gone = what Has/Get still hold.
+//
 // Callbacks run outside the router's lock, so their order is not asserted.
 func concurrentRegistry(r *vk.Run) {
 	n := r.Pick(1500, 100000)
